@@ -66,6 +66,7 @@ func ops() []op {
 		{name: "DELETE FROM cpu WHERE time>=3", kind: "delete", meas: "cpu", cond: "time >= 3", sel: cpu(all), min: 3, max: influxql.MaxTime},
 		{name: "DELETE FROM cpu WHERE host='a' AND time=2", kind: "delete", meas: "cpu", cond: "host = 'a' AND time = 2", sel: cpu(hostA), min: 2, max: 2},
 		{name: "DELETE FROM cpu WHERE time<=1", kind: "delete", meas: "cpu", cond: "time <= 1", sel: cpu(all), min: influxql.MinTime, max: 1},
+		{name: "DELETE FROM cpu WHERE host='b' AND time<=4", kind: "delete", meas: "cpu", cond: "host = 'b' AND time <= 4", sel: cpu(func(s ek.Series) bool { return s.Tags["host"] == "b" }), min: influxql.MinTime, max: 4},
 		{name: "DROP SERIES FROM cpu WHERE host='a'", kind: "delete", meas: "cpu", cond: "host = 'a'", sel: cpu(hostA), min: influxql.MinTime, max: influxql.MaxTime},
 		{name: "DROP SERIES WHERE host='a' (all measurements)", kind: "delete", meas: "", cond: "host = 'a'", sel: hostA, min: influxql.MinTime, max: influxql.MaxTime},
 		{name: "DROP MEASUREMENT cpu", kind: "dropmeas", dropMeas: "cpu"},
